@@ -26,7 +26,12 @@ Open Scope Z_scope.
    disabled after a handle's load (untouched by a direct call); user transform functions
    called in order with (handle, world); per handler component on_add(entity, world)
    once, then - handle only - on_world_load(handle, world) once, and nothing else.
-   A load may abort only when some argument is of an open form. *)
+   A load may abort only when some argument is of an open form.
+   A handle is loaded one or more times (h(), h.clear(), h() again, h.load()):
+   EVERY load returns a World instance not seen before and satisfies the whole
+   specification again - new instances, ids from 1, callbacks and marks once per
+   loaded world; "$res{..}" names the one resource its handle holds, "$handle{..}"
+   the same handle, in every load. *)
 Theorem C15_load_is_spec :
   forall c : C15_case, wf_b c = true -> known_b c = false -> accepts c = true -> holds c.
 Proof. exact accepts_holds. Qed.
@@ -35,45 +40,52 @@ Print Assumptions C15_load_is_spec.
 (* The same with the observation eliminated: the pipeline's own result satisfies the
    specification, for every way of loading. *)
 Theorem C15_pipeline_meets_spec :
-  forall E k, wf_b (Case E k (model E k)) = true -> known_b (Case E k (model E k)) = false ->
-              holds_b (Case E k (model E k)) = true.
+  forall E k, wf_k E k = true -> known_k E k = false -> holds1 E k (model E k) = true.
 Proof. exact model_holds. Qed.
 Print Assumptions C15_pipeline_meets_spec.
 
-(* ---- what [holds] means on raw observations ---------------------------------- *)
+(* every load of the case: the n-th load returned the n-th new World instance
+   and satisfies the specification ([holds1]) on its own *)
+Theorem C15_every_load :
+  forall c n i o, holds c -> nth_error (c_obs c) n = Some (i, o) ->
+    i = Z.of_nat n /\ holds1 (c_env c) (c_load c) o = true.
+Proof. exact holds_every_load. Qed.
+Print Assumptions C15_every_load.
+
+(* ---- what [holds1] means on the raw observations of one load ------------------- *)
 (* the j-th described dict (in construction order over all steps) is the j-th
    constructor call; its i-th positional argument is exactly what [expected]
    prescribes, and there are no further arguments *)
 Theorem C15_positional_argument :
-  forall c w j h d i a v,
-    holds c -> c_obs c = OOk w -> nth_error (all_hdicts (steps_of (c_load c))) j = Some (h, d) ->
-    nth_error (optl (d_args d)) i = Some a -> expected (c_env c) h a = Exactly v ->
-    exists k, nth_error (o_constr w) j = Some k /\ nth_error (k_args k) i = Some v
-              /\ length (k_args k) = length (optl (d_args d)).
+  forall E k w j h d i a v,
+    holds1 E k (OOk w) = true -> nth_error (all_hdicts (steps_of k)) j = Some (h, d) ->
+    nth_error (optl (d_args d)) i = Some a -> expected E h a = Exactly v ->
+    exists kc, nth_error (o_constr w) j = Some kc /\ nth_error (k_args kc) i = Some v
+               /\ length (k_args kc) = length (optl (d_args d)).
 Proof. exact holds_arg. Qed.
 Print Assumptions C15_positional_argument.
 
 Theorem C15_keyword_argument :
-  forall c w j h d i key a v,
-    holds c -> c_obs c = OOk w -> nth_error (all_hdicts (steps_of (c_load c))) j = Some (h, d) ->
-    nth_error (optl (d_kwargs d)) i = Some (key, a) -> expected (c_env c) h a = Exactly v ->
-    exists k, nth_error (o_constr w) j = Some k /\ nth_error (k_kwargs k) i = Some (key, v)
-              /\ length (k_kwargs k) = length (optl (d_kwargs d)).
+  forall E k w j h d i key a v,
+    holds1 E k (OOk w) = true -> nth_error (all_hdicts (steps_of k)) j = Some (h, d) ->
+    nth_error (optl (d_kwargs d)) i = Some (key, a) -> expected E h a = Exactly v ->
+    exists kc, nth_error (o_constr w) j = Some kc /\ nth_error (k_kwargs kc) i = Some (key, v)
+               /\ length (k_kwargs kc) = length (optl (d_kwargs d)).
 Proof. exact holds_kwarg. Qed.
 Print Assumptions C15_keyword_argument.
 
 Theorem C15_no_extra_objects :
-  forall c w, holds c -> c_obs c = OOk w ->
-    length (o_constr w) = length (all_hdicts (steps_of (c_load c))).
+  forall E k w, holds1 E k (OOk w) = true ->
+    length (o_constr w) = length (all_hdicts (steps_of k)).
 Proof. exact holds_counts. Qed.
 
 (* processors in the order the steps add them; dispatching; the user transform
    functions were each called once, in order, with (handle, world); ids distinct *)
 Theorem C15_world_shape :
-  forall c w, holds c -> c_obs c = OOk w ->
-    o_procs w = exp_procs (steps_of (c_load c)) 0 /\
-    o_enabled w = init_enabled (c_load c) /\
-    o_marks w = exp_marks (steps_of (c_load c)) /\
+  forall E k w, holds1 E k (OOk w) = true ->
+    o_procs w = exp_procs (steps_of k) 0 /\
+    o_enabled w = init_enabled k /\
+    o_marks w = exp_marks (steps_of k) /\
     NoDup (map fst (o_ents w)).
 Proof. exact holds_world. Qed.
 Print Assumptions C15_world_shape.
@@ -82,11 +94,11 @@ Print Assumptions C15_world_shape.
    given ids ([spec_items] succeeds), and the callbacks of each component instance
    are exactly on_add (if handled) then - handle only - on_world_load (if handled) *)
 Theorem C15_callbacks :
-  forall c w, holds c -> c_obs c = OOk w ->
+  forall E k w, holds1 E k (OOk w) = true ->
     exists table,
-      spec_items (c_env c) (flat_map step_items (steps_of (c_load c))) 0 (o_ents w) = Some table /\
+      spec_items E (flat_map step_items (steps_of k)) 0 (o_ents w) = Some table /\
       (forall x, In x table ->
-         cbs_of (fst x) (o_cbs w) = expected_cbs (via_handle (c_load c)) x) /\
+         cbs_of (fst x) (o_cbs w) = expected_cbs (via_handle k) x) /\
       (forall cb0, In cb0 (o_cbs w) -> exists x, In x table /\ fst x = cb_inst cb0).
 Proof. exact holds_callbacks. Qed.
 Print Assumptions C15_callbacks.
@@ -95,23 +107,23 @@ Print Assumptions C15_callbacks.
 (* JSON file through WorldFromFileHandle: the one-pass substitution, the default
    processors first, dispatching disabled *)
 Theorem C15_file_argument :
-  forall E ds obs w j d i a v,
-    holds (Case E (LFile ds) obs) -> obs = OOk w -> nth_error (all_dicts ds) j = Some d ->
+  forall E ds w j d i a v,
+    holds1 E (LFile ds) (OOk w) = true -> nth_error (all_dicts ds) j = Some d ->
     nth_error (optl (d_args d)) i = Some a -> subst_spec E a = Exactly v ->
-    exists k, nth_error (o_constr w) j = Some k /\ nth_error (k_args k) i = Some v
-              /\ length (k_args k) = length (optl (d_args d)).
+    exists kc, nth_error (o_constr w) j = Some kc /\ nth_error (k_args kc) i = Some v
+               /\ length (k_args kc) = length (optl (d_args d)).
 Proof. exact file_arg. Qed.
 
 Theorem C15_file_keyword_argument :
-  forall E ds obs w j d i key a v,
-    holds (Case E (LFile ds) obs) -> obs = OOk w -> nth_error (all_dicts ds) j = Some d ->
+  forall E ds w j d i key a v,
+    holds1 E (LFile ds) (OOk w) = true -> nth_error (all_dicts ds) j = Some d ->
     nth_error (optl (d_kwargs d)) i = Some (key, a) -> subst_spec E a = Exactly v ->
-    exists k, nth_error (o_constr w) j = Some k /\ nth_error (k_kwargs k) i = Some (key, v)
-              /\ length (k_kwargs k) = length (optl (d_kwargs d)).
+    exists kc, nth_error (o_constr w) j = Some kc /\ nth_error (k_kwargs kc) i = Some (key, v)
+               /\ length (k_kwargs kc) = length (optl (d_kwargs d)).
 Proof. exact file_kwarg. Qed.
 
 Theorem C15_file_world :
-  forall E ds obs w, holds (Case E (LFile ds) obs) -> obs = OOk w ->
+  forall E ds w, holds1 E (LFile ds) (OOk w) = true ->
     o_procs w = -1 :: -2 :: zseq 0 (length (proc_dicts ds)) /\ o_enabled w = false /\
     NoDup (map fst (o_ents w)).
 Proof. exact file_world. Qed.
@@ -165,7 +177,7 @@ Theorem C15_match_exact :
 Proof. exact match_exact. Qed.
 
 (* ---- non-vacuity and sensitivity --------------------------------------------------- *)
-(* a real load of /repo (processor with an argument; entity "hero" with a
+(* three real loads of /repo: h(), h.clear(); h(), h.load() (processor with an argument; entity "hero" with a
    handler component built from ${vns.o0}, $res{r1}, a look-alike, a nested
    list and k1=$handle{r1}; a second entity with an automatic id) *)
 Definition ex_ok : C15_case :=
@@ -178,11 +190,21 @@ Definition ex_ok : C15_case :=
     114; 101; 115; 123; 114; 49; 125]); (JStr [120; 36; 123; 118; 110; 115; 46; 111; 48; 125]);
     (JList [(JStr [36; 123; 118; 110; 115; 46; 111; 48; 125])])]) (Some [(4, (JStr [36; 104; 97;
     110; 100; 108; 101; 123; 114; 49; 125]))]))])); (ED None (Some [(DD [118; 110; 115; 46; 67;
-    48] None None)]))]))) (OOk (WO [(K 2 [(JNum 1)] []); (K 1 [(JRef KObj 3); (JRef KRes 100);
-    (JStr [120; 36; 123; 118; 110; 115; 46; 111; 48; 125]); (JList [(JStr [36; 123; 118; 110;
-    115; 46; 111; 48; 125])])] [(4, (JRef KHandle 0))]); (K 1 [] [])] [(-1); (-2); 0] [((JStr
-    [104; 101; 114; 111]), [1]); ((JNum 1), [2])] false [(CB 1 0 (JStr [104; 101; 114; 111])
-    true); (CB 2 0 (JNum 1) true); (CB 1 1 JNull true); (CB 2 1 JNull true)] []))).
+    48] None None)]))]))) [(0, (OOk (WO [(K 2 [(JNum 1)] []); (K 1 [(JRef KObj 3); (JRef KRes
+    100); (JStr [120; 36; 123; 118; 110; 115; 46; 111; 48; 125]); (JList [(JStr [36; 123; 118;
+    110; 115; 46; 111; 48; 125])])] [(4, (JRef KHandle 0))]); (K 1 [] [])] [(-1); (-2); 0]
+    [((JStr [104; 101; 114; 111]), [1]); ((JNum 1), [2])] false [(CB 1 0 (JStr [104; 101; 114;
+    111]) true); (CB 2 0 (JNum 1) true); (CB 1 1 JNull true); (CB 2 1 JNull true)] []))); (1,
+    (OOk (WO [(K 2 [(JNum 1)] []); (K 1 [(JRef KObj 3); (JRef KRes 100); (JStr [120; 36; 123;
+    118; 110; 115; 46; 111; 48; 125]); (JList [(JStr [36; 123; 118; 110; 115; 46; 111; 48;
+    125])])] [(4, (JRef KHandle 0))]); (K 1 [] [])] [(-1); (-2); 0] [((JStr [104; 101; 114;
+    111]), [1]); ((JNum 1), [2])] false [(CB 1 0 (JStr [104; 101; 114; 111]) true); (CB 2 0
+    (JNum 1) true); (CB 1 1 JNull true); (CB 2 1 JNull true)] []))); (2, (OOk (WO [(K 2 [(JNum
+    1)] []); (K 1 [(JRef KObj 3); (JRef KRes 100); (JStr [120; 36; 123; 118; 110; 115; 46; 111;
+    48; 125]); (JList [(JStr [36; 123; 118; 110; 115; 46; 111; 48; 125])])] [(4, (JRef KHandle
+    0))]); (K 1 [] [])] [(-1); (-2); 0] [((JStr [104; 101; 114; 111]), [1]); ((JNum 1), [2])]
+    false [(CB 1 0 (JStr [104; 101; 114; 111]) true); (CB 2 0 (JNum 1) true); (CB 1 1 JNull
+    true); (CB 2 1 JNull true)] [])))]).
 Example C15_nonvacuous : wf_b ex_ok = true /\ known_b ex_ok = false /\ accepts ex_ok = true.
 Proof. vm_compute. auto. Qed.
 
@@ -200,11 +222,15 @@ Definition ex_handle : C15_case :=
     None)]))]))); SDefault; (SFile [PRes; PType] (DS (Some [(DD [118; 110; 115; 46; 80; 48] None
     None)]) (Some [(ED None (Some [(DD [118; 110; 115; 46; 67; 48] (Some [(JStr [36; 123; 118;
     110; 115; 46; 111; 48; 125]); (JStr [36; 114; 101; 115; 123; 114; 49; 125])]) None)]))])));
-    (SMark 1)]) (OOk (WO [(K 4 [] []); (K 1 [(JStr [36; 123; 118; 110; 115; 46; 111; 48; 125]);
-    (JRef KObj 3)] []); (K 2 [] []); (K 1 [(JStr [36; 123; 118; 110; 115; 46; 111; 48; 125]);
-    (JRef KRes 100)] [])] [0; (-1); (-2); 2] [((JNum 7), [1]); ((JNum 1), [3])] false [(CB 1 0
-    (JNum 7) true); (CB 3 0 (JNum 1) true); (CB 1 1 JNull true); (CB 3 1 JNull true)] [(0,
-    true); (1, true)]))).
+    (SMark 1)]) [(0, (OOk (WO [(K 4 [] []); (K 1 [(JStr [36; 123; 118; 110; 115; 46; 111; 48;
+    125]); (JRef KObj 3)] []); (K 2 [] []); (K 1 [(JStr [36; 123; 118; 110; 115; 46; 111; 48;
+    125]); (JRef KRes 100)] [])] [0; (-1); (-2); 2] [((JNum 7), [1]); ((JNum 1), [3])] false
+    [(CB 1 0 (JNum 7) true); (CB 3 0 (JNum 1) true); (CB 1 1 JNull true); (CB 3 1 JNull true)]
+    [(0, true); (1, true)]))); (1, (OOk (WO [(K 4 [] []); (K 1 [(JStr [36; 123; 118; 110; 115;
+    46; 111; 48; 125]); (JRef KObj 3)] []); (K 2 [] []); (K 1 [(JStr [36; 123; 118; 110; 115;
+    46; 111; 48; 125]); (JRef KRes 100)] [])] [0; (-1); (-2); 2] [((JNum 7), [1]); ((JNum 1),
+    [3])] false [(CB 1 0 (JNum 7) true); (CB 3 0 (JNum 1) true); (CB 1 1 JNull true); (CB 3 1
+    JNull true)] [(0, true); (1, true)])))]).
 Example C15_nonvacuous_handle :
   wf_b ex_handle = true /\ known_b ex_handle = false /\ accepts ex_handle = true.
 Proof. vm_compute. auto. Qed.
@@ -218,10 +244,10 @@ Definition ex_direct : C15_case :=
     (JStr [97])) (Some [(DD [118; 110; 115; 46; 67; 48] (Some [(JStr [36; 114; 101; 115; 123;
     114; 49; 125])]) None)]))]))); (SDict (DS (Some [(DD [118; 110; 115; 46; 80; 48] None (Some
     [(4, (JStr [36; 123; 118; 110; 115; 46; 111; 48; 125]))]))]) (Some [(ED None (Some [(DD
-    [118; 110; 115; 46; 67; 48] (Some [(JRef KObj 3)]) None)]))])))]) (OOk (WO [(K 1 [(JStr [36;
-    114; 101; 115; 123; 114; 49; 125])] []); (K 2 [] [(4, (JStr [36; 123; 118; 110; 115; 46;
-    111; 48; 125]))]); (K 1 [(JRef KObj 3)] [])] [1] [((JStr [97]), [0]); ((JNum 1), [2])] true
-    [(CB 0 0 (JStr [97]) true); (CB 2 0 (JNum 1) true)] []))).
+    [118; 110; 115; 46; 67; 48] (Some [(JRef KObj 3)]) None)]))])))]) [(0, (OOk (WO [(K 1 [(JStr
+    [36; 114; 101; 115; 123; 114; 49; 125])] []); (K 2 [] [(4, (JStr [36; 123; 118; 110; 115;
+    46; 111; 48; 125]))]); (K 1 [(JRef KObj 3)] [])] [1] [((JStr [97]), [0]); ((JNum 1), [2])]
+    true [(CB 0 0 (JStr [97]) true); (CB 2 0 (JNum 1) true)] [])))]).
 Example C15_nonvacuous_direct :
   wf_b ex_direct = true /\ known_b ex_direct = false /\ accepts ex_direct = true.
 Proof. vm_compute. auto. Qed.
@@ -238,13 +264,36 @@ Definition ex_search : C15_case :=
     114; 101; 115; 123; 114; 49; 125]); (JStr [120; 36; 123; 118; 110; 115; 46; 111; 48; 125]);
     (JList [(JStr [36; 123; 118; 110; 115; 46; 111; 48; 125])])]) (Some [(4, (JStr [36; 104; 97;
     110; 100; 108; 101; 123; 114; 49; 125]))]))])); (ED None (Some [(DD [118; 110; 115; 46; 67;
-    48] None None)]))]))) (OOk (WO [(K 2 [(JNum 1)] []); (K 1 [(JRef KObj 3); (JRef KRes 100);
-    (JRef KObj 3); (JList [(JStr [36; 123; 118; 110; 115; 46; 111; 48; 125])])] [(4, (JRef
+    48] None None)]))]))) [(0, (OOk (WO [(K 2 [(JNum 1)] []); (K 1 [(JRef KObj 3); (JRef KRes
+    100); (JRef KObj 3); (JList [(JStr [36; 123; 118; 110; 115; 46; 111; 48; 125])])] [(4, (JRef
     KHandle 0))]); (K 1 [] [])] [(-1); (-2); 0] [((JStr [104; 101; 114; 111]), [1]); ((JNum 1),
     [2])] false [(CB 1 0 (JStr [104; 101; 114; 111]) true); (CB 2 0 (JNum 1) true); (CB 1 1
-    JNull true); (CB 2 1 JNull true)] []))).
+    JNull true); (CB 2 1 JNull true)] [])))]).
 Example C15_search_rejected :
   wf_b ex_search = true /\ known_b ex_search = false /\ holds_b ex_search = false /\ accepts ex_search = false.
+Proof. vm_compute. auto. Qed.
+
+(* the same description loaded twice (h(), h.clear(), h()) by a copy of desper
+   whose load() consumes its transform functions: the second world is empty *)
+Definition ex_second_load : C15_case :=
+  (Case (Env [([118; 110; 115], NS (JRef KNoCopy 0) CNone); ([118; 110; 115; 46; 67; 48], NS (JRef
+    KObj 1) (CComp true true)); ([118; 110; 115; 46; 80; 48], NS (JRef KObj 2) CProc); ([118;
+    110; 115; 46; 111; 48], NS (JRef KObj 3) CNone); ([118; 110; 115; 46; 80; 49], NS (JRef KObj
+    4) CProc)] [([114; 49], NHandle 0 100)] 2) (LFile (DS (Some [(DD [118; 110; 115; 46; 80; 48]
+    (Some [(JNum 1)]) None)]) (Some [(ED (Some (JStr [104; 101; 114; 111])) (Some [(DD [118;
+    110; 115; 46; 67; 48] (Some [(JStr [36; 123; 118; 110; 115; 46; 111; 48; 125]); (JStr [36;
+    114; 101; 115; 123; 114; 49; 125]); (JStr [120; 36; 123; 118; 110; 115; 46; 111; 48; 125]);
+    (JList [(JStr [36; 123; 118; 110; 115; 46; 111; 48; 125])])]) (Some [(4, (JStr [36; 104; 97;
+    110; 100; 108; 101; 123; 114; 49; 125]))]))])); (ED None (Some [(DD [118; 110; 115; 46; 67;
+    48] None None)]))]))) [(0, (OOk (WO [(K 2 [(JNum 1)] []); (K 1 [(JRef KObj 3); (JRef KRes
+    100); (JStr [120; 36; 123; 118; 110; 115; 46; 111; 48; 125]); (JList [(JStr [36; 123; 118;
+    110; 115; 46; 111; 48; 125])])] [(4, (JRef KHandle 0))]); (K 1 [] [])] [(-1); (-2); 0]
+    [((JStr [104; 101; 114; 111]), [1]); ((JNum 1), [2])] false [(CB 1 0 (JStr [104; 101; 114;
+    111]) true); (CB 2 0 (JNum 1) true); (CB 1 1 JNull true); (CB 2 1 JNull true)] []))); (1,
+    (OOk (WO [] [] [] false [] [])))]).
+Example C15_empty_second_load_rejected :
+  wf_b ex_second_load = true /\ known_b ex_second_load = false /\
+  holds_b ex_second_load = false /\ accepts ex_second_load = false.
 Proof. vm_compute. auto. Qed.
 
 (* K6: "${vns}" names a module; copy.deepcopy at the start of the next
@@ -255,7 +304,8 @@ Definition ex_k6 : C15_case :=
     KObj 1) (CComp true true)); ([118; 110; 115; 46; 80; 48], NS (JRef KObj 2) CProc); ([118;
     110; 115; 46; 111; 48], NS (JRef KObj 3) CNone); ([118; 110; 115; 46; 80; 49], NS (JRef KObj
     4) CProc)] [([114; 49], NHandle 0 100)] 1) (LFile (DS None (Some [(ED None (Some [(DD [118;
-    110; 115; 46; 67; 48] (Some [(JStr [36; 123; 118; 110; 115; 125])]) None)]))]))) OErr).
+    110; 115; 46; 67; 48] (Some [(JStr [36; 123; 118; 110; 115; 125])]) None)]))]))) [(0,
+    OErr)]).
 Theorem C15_K6_deepcopy_refuted :
   exists c, wf_b c = true /\ known_b c = true /\ accepts c = true /\ holds_b c = false.
 Proof. exists ex_k6. vm_compute. auto. Qed.
